@@ -506,6 +506,96 @@ Arguments e_coercions {N} _.
 Arguments e_strategy {N} _.
 
 (* ---------------------------------------------------------------------- *)
+(* HISTORIES on one Chaperone object.
+   What the object keeps between calls (chaperone.py:170-185): the statistics
+   counters and the co_chaperones dict (register_co_chaperone, 603-618);
+   strategies / on_misfold / silent / max_retries are fixed by the constructor.
+   Different calls may name different schemas, so the schema-dependent oracles
+   (model_validate, the coercion table, the co-chaperone registered for the
+   schema) are families indexed by a schema id / co-chaperone id. *)
+
+Record base := mkBase {
+  b_strip : Z -> outcome Z;
+  b_loads : Z -> outcome Z;
+  b_findall : nat -> Z -> outcome (list Z);
+  b_sub : nat -> Z -> outcome Z;
+  b_coerce : Z -> Z -> outcome (Z * list Z);     (* schema, value *)
+  b_validate : Z -> Z -> outcome Z;              (* schema, value *)
+  b_is_none : Z -> bool;
+  b_cochap : Z -> Z -> outcome Z;                (* co-chaperone id, text *)
+  b_misfold : outcome unit;
+  b_npat : nat; b_nrep : nat; b_has_misfold : bool }.
+
+(* the oracles / configuration one call sees: schema [sch], co-chaperone
+   currently registered for it *)
+Definition oracles_for (B : base) (sch : Z) (co : option Z) : oracles :=
+  mkOracles (b_strip B) (b_loads B) (b_findall B) (b_sub B) (b_coerce B sch) (b_validate B sch)
+            (b_is_none B)
+            (match co with Some c => b_cochap B c | None => fun _ => Raises EOther end)
+            (b_misfold B).
+Definition config_for (B : base) (co : option Z) : config :=
+  mkConfig (b_npat B) (b_nrep B) (match co with Some _ => true | None => false end) (b_has_misfold B).
+
+Definition registry := list (Z * Z).            (* schema id -> co-chaperone id, latest first *)
+Definition lookup_co (reg : registry) (sch : Z) : option Z :=
+  match find (fun e => Z.eqb (fst e) sch) reg with Some e => Some (snd e) | None => None end.
+
+Record cstate := mkCS { cs_stats : stats; cs_reg : registry }.
+
+Inductive hop :=
+| HFold (raw sch : Z) (arg : list strategy)            (* chap.fold(raw, schema, arg) *)
+| HFoldEnhanced (raw sch : Z) (arg : list strategy)    (* chap.fold_enhanced(raw, schema, arg) *)
+| HRegister (sch co : Z)                               (* chap.register_co_chaperone(schema, co) *)
+| HReset.                                              (* chap.reset_statistics() *)
+
+Inductive hout (N : num) :=
+| OPlain (r : outcome pres) (l : list call)
+| OEnh (r : outcome (eres N)) (l : list call)
+| ONone.
+Arguments OPlain {N} _ _.
+Arguments OEnh {N} _ _.
+Arguments ONone {N}.
+
+Definition reg_step (reg : registry) (op : hop) : registry :=
+  match op with HRegister sch co => (sch, co) :: reg | _ => reg end.
+
+Section History.
+Variable N : num.
+Variable B : base.
+Variable ctor : list strategy.           (* Chaperone(strategies=ctor) *)
+
+Definition hstep (s : cstate) (op : hop) : cstate * hout N :=
+  match op with
+  | HFold raw sch arg =>
+      let co := lookup_co (cs_reg s) sch in
+      let '(r, st', l) := fold (oracles_for B sch co) (config_for B co) ctor arg raw (cs_stats s) in
+      (mkCS st' (cs_reg s), OPlain r l)
+  | HFoldEnhanced raw sch arg =>
+      let co := lookup_co (cs_reg s) sch in
+      let '(r, st', l) := fold_enhanced N (oracles_for B sch co) (config_for B co) ctor arg raw (cs_stats s) in
+      (mkCS st' (cs_reg s), OEnh r l)
+  | HRegister sch co => (mkCS (cs_stats s) ((sch, co) :: cs_reg s), ONone)
+  | HReset => (mkCS stats0 (cs_reg s), ONone)
+  end.
+
+(* what each call of a history returns *)
+Fixpoint run_hist (s : cstate) (ops : list hop) : list (hout N) :=
+  match ops with
+  | [] => []
+  | op :: rest => let '(s', o) := hstep s op in o :: run_hist s' rest
+  end.
+
+(* the same calls, each made on a FRESH Chaperone (zero counters) that has the
+   co-chaperone registrations made so far *)
+Fixpoint run_fresh (reg : registry) (ops : list hop) : list (hout N) :=
+  match ops with
+  | [] => []
+  | op :: rest => snd (hstep (mkCS stats0 reg) op) :: run_fresh (reg_step reg op) rest
+  end.
+
+End History.
+
+(* ---------------------------------------------------------------------- *)
 (* oracle tables recorded from the implementation (correspondence check)    *)
 (* every row is a list of Z:
      outcome of X encoded as  code :: payload   with code 0 = returned,
@@ -521,10 +611,10 @@ Record otab := mkOTab {
   ot_loads : list (list Z);      (* [t; code; v] *)
   ot_findall : list (list Z);    (* [k; t; code; m1; m2; ...] *)
   ot_sub : list (list Z);        (* [k; t; code; t'] *)
-  ot_coerce : list (list Z);     (* [v; code; v'; name1; ...] *)
-  ot_validate : list (list Z);   (* [v; code; i] *)
+  ot_coerce : list (list Z);     (* [schema; v; code; v'; name1; ...] *)
+  ot_validate : list (list Z);   (* [schema; v; code; i] *)
   ot_none : list Z;              (* value ids that are None *)
-  ot_cochap : list (list Z);     (* [t; code; t'] *)
+  ot_cochap : list (list Z);     (* [co; t; code; t'] *)
   ot_misfold : Z                 (* code *)
 }.
 
@@ -562,17 +652,25 @@ Definition dec_coerce (row : option (list Z)) : outcome (Z * list Z) :=
   | _ => Ret (unknown, [])
   end.
 
-Definition oracles_of (t : otab) : oracles :=
-  mkOracles
+Definition base_of (cfg : list Z) (t : otab) : base :=
+  let '(np, nr, hm) := match cfg with
+                       | [a; b; c] => (Z.to_nat a, Z.to_nat b, negb (c =? 0))
+                       | _ => (0%nat, 0%nat, false)
+                       end in
+  mkBase
     (fun x => match find_row [x] (ot_strip t) with Some (y :: _) => Ret y | _ => Ret unknown end)
     (fun x => dec_z (find_row [x] (ot_loads t)))
     (fun k x => dec_zs (find_row [Z.of_nat k; x] (ot_findall t)))
     (fun k x => dec_z (find_row [Z.of_nat k; x] (ot_sub t)))
-    (fun v => dec_coerce (find_row [v] (ot_coerce t)))
-    (fun v => dec_z (find_row [v] (ot_validate t)))
+    (fun sch v => dec_coerce (find_row [sch; v] (ot_coerce t)))
+    (fun sch v => dec_z (find_row [sch; v] (ot_validate t)))
     (fun v => existsb (Z.eqb v) (ot_none t))
-    (fun x => dec_z (find_row [x] (ot_cochap t)))
-    (if ot_misfold t =? 0 then Ret tt else Raises (exn_of (ot_misfold t))).
+    (fun co x => dec_z (find_row [co; x] (ot_cochap t)))
+    (if ot_misfold t =? 0 then Ret tt else Raises (exn_of (ot_misfold t)))
+    np nr hm.
+
+(* single-schema view (schema 0, no co-chaperone), used by the examples *)
+Definition oracles_of (t : otab) : oracles := oracles_for (base_of [] t) 0 None.
 
 (* ---------------------------------------------------------------------- *)
 (* canonical observations                                                    *)
@@ -645,28 +743,44 @@ Definition stats_obs (st : stats) : list Z :=
   [st_total st; st_successful st]
   ++ map (st_success st) default_strategies ++ map (st_attempts st) default_strategies.
 
-(* a case: one Chaperone(strategies=ctor); chap.fold(raw, schema, arg) then
-   chap.fold_enhanced(raw, schema, arg), statistics read after each *)
+(* a case: one Chaperone(strategies=ctor, co_chaperones=reg0) and a HISTORY of
+   calls on it; every call is observed (result, statistics, oracle calls) *)
 Record case := mkCase {
-  c_cfg : list Z;                (* npat, nrep, has_co, has_misfold *)
-  c_ctor : list Z; c_arg : list Z; c_raw : Z;
+  c_cfg : list Z;                (* npat, nrep, has_misfold *)
+  c_ctor : list Z;
+  c_reg0 : list (list Z);        (* [schema; co] *)
+  c_ops : list (list Z);         (* [0; raw; schema; arg...] fold | [1; raw; schema; arg...] fold_enhanced
+                                    | [2; schema; co] register_co_chaperone | [3] reset_statistics *)
   c_tab : otab }.
 
-Definition cfg_of (l : list Z) : config :=
-  match l with
-  | [a; b; c; d] => mkConfig (Z.to_nat a) (Z.to_nat b) (negb (c =? 0)) (negb (d =? 0))
-  | _ => mkConfig 0 0 false false
+Definition op_of (row : list Z) : hop :=
+  match row with
+  | 0 :: raw :: sch :: arg => HFold raw sch (map strategy_of arg)
+  | 1 :: raw :: sch :: arg => HFoldEnhanced raw sch (map strategy_of arg)
+  | 2 :: sch :: co :: _ => HRegister sch co
+  | _ => HReset
+  end.
+Definition reg_of (rows : list (list Z)) : registry :=
+  flat_map (fun r => match r with [a; b] => [(a, b)] | _ => [] end) rows.
+
+Fixpoint run_obs (B : base) (ctor : list strategy) (s : cstate) (ops : list hop) : list (list Z) :=
+  match ops with
+  | [] => []
+  | op :: rest =>
+      let '(s', o) := hstep numF B ctor s op in
+      (match o with
+       | OPlain r l => [[-2; 0]; pres_obs r; stats_obs (cs_stats s')] ++ flat_map call_obs l
+       | OEnh r l => [[-2; 1]] ++ eres_obs r ++ [stats_obs (cs_stats s')] ++ flat_map call_obs l
+       | ONone => match op with
+                  | HRegister _ _ => [[-2; 2]]
+                  | _ => [[-2; 3]; stats_obs (cs_stats s')]
+                  end
+       end) ++ run_obs B ctor s' rest
   end.
 
 Definition run_case (c : case) : list (list Z) :=
-  let O := oracles_of (c_tab c) in
-  let cf := cfg_of (c_cfg c) in
-  let ctor := map strategy_of (c_ctor c) in
-  let arg := map strategy_of (c_arg c) in
-  let '(r1, st1, l1) := fold O cf ctor arg (c_raw c) stats0 in
-  let '(r2, st2, l2) := fold_enhanced numF O cf ctor arg (c_raw c) st1 in
-  [pres_obs r1; stats_obs st1] ++ eres_obs r2 ++ [stats_obs st2]
-  ++ flat_map call_obs l1 ++ [[-1]] ++ flat_map call_obs l2.
+  run_obs (base_of (c_cfg c) (c_tab c)) (map strategy_of (c_ctor c))
+          (mkCS stats0 (reg_of (c_reg0 c))) (map op_of (c_ops c)).
 
 (* ---------------------------------------------------------------------- *)
 (* specification vocabulary used by the theorems (definitions only)         *)
